@@ -97,7 +97,7 @@ class C07(Check):
         grown = False
         depth = 2 if spec.get('circuits') else 1
         opnames = sorted({o for (_, o) in net.inst})
-        if depth == 2 and stratum in ('S-edges', 'S-mixed', 'S-update_var') and rng.random() < 0.35:
+        if depth == 2 and stratum in ('S-edges', 'S-mixed', 'S-update_var') and rng.random() < 0.5:
             # first op: a second circuit derived from T by adding a sub-circuit (update_template(circuits=...), not in
             # place); the inherited sub-circuits must not be shared with T
             src_c = rng.choice(list(spec['circuits']))
@@ -116,7 +116,7 @@ class C07(Check):
                     return -rng.randint(1, 40) / 16
                 return rng.randint(1, 60) / 16
             have = [n for n in nodes if (n, opn) in net.inst]
-            on = rng.choice(['T', 'D']) if derived else 'T'
+            on = rng.choice(['T', 'D', 'D']) if derived else 'T'
             if k == 'derive':
                 if not derived and not grown and depth == 1 and len(nodes) >= 2:
                     pairs = [(a, b) for a in nodes for b in nodes
